@@ -26,7 +26,39 @@ XFER_OK = {"direct", "anyref", "anyref_n", "aligned", "aligned_n", "tracked", "s
            "aligned_tracked", "ref_aligned", "mra", "fb_pool", "fb_coll"}
 
 
+COMPS_DEEP = ["deep_pool", "deep_apool", "deep_coll", "deep_stack"]
+
+
+def deep_cmds(rng, name, n):
+    """deeply tracked library allocators: small requests that make the arena grow several times"""
+    cmds = []
+    top = 64 if name == "deep_coll" else 100 if name == "deep_stack" else 16
+    for _ in range(n):
+        r = rng.random()
+        sz = rng.choice([1, 4, 8, 16, 16] if top == 16 else [1, 8, 16, 17, 32, 33, 64] if top == 64 else [1, 8, 24, 50, 100])
+        al = rng.choice([a for a in (1, 2, 4, 8, 16) if sz % a == 0]) if name != "deep_stack" else rng.choice([1, 8, 16, 32])
+        if r < 0.45:
+            cmds.append("an %d %d" % (sz, al))
+        elif r < 0.55 and name != "deep_pool":
+            cmds.append("aa %d %d %d" % (rng.choice([1, 2, 3]), sz, al))
+        elif r < 0.65:
+            cmds.append("tn %d %d" % (sz, al))
+        elif r < 0.85:
+            cmds.append("d %d" % rng.randint(0, 30))
+        elif r < 0.93:
+            cmds.append("td %d" % rng.randint(0, 30))
+        elif name == "deep_stack" and r < 0.97:
+            cmds.append("shr")
+        elif name in ("deep_pool", "deep_stack"):
+            cmds.append("xm")
+        else:
+            cmds.append("an %d %d" % (sz, al))
+    return cmds
+
+
 def comp_cmds(rng, name, n):
+    if name in COMPS_DEEP:
+        return deep_cmds(rng, name, n)
     cmds = []
     mixed = name in ("fb_pool", "fb_apool", "fb_coll")
     smart = name in SMART_OK
@@ -158,7 +190,8 @@ def jobs_c08(prop, tier, seed):
 def jobs_c09(prop, tier, seed):
     rng = random.Random(seed * 7919 + 9)
     s = 1 if tier == "quick" else 30
-    return compose_jobs(COMPS_ALL, ["base", "dbg"], 3 * s, 45, rng, "adapters") + known_jobs(["base"])
+    return (compose_jobs(COMPS_ALL, ["base", "dbg"], 3 * s, 45, rng, "adapters")
+            + compose_jobs(COMPS_DEEP, ["base", "dbg"], 4 * s, 60, rng, "deep") + known_jobs(["base"]))
 
 
 PROPS = {"C08": {"jobs": jobs_c08}, "C09": {"jobs": jobs_c09}}
